@@ -97,6 +97,7 @@ func runMux(period int, ops []muxOp) []muxCall {
 	m := astits.NewMuxer(context.Background(), w, astits.MuxerOptTablesRetransmitPeriod(period))
 	calls := make([]muxCall, 0, len(ops))
 	reused := map[uint16]*astits.PESOptionalHeader{}
+	reusedAF := map[uint16]*astits.PacketAdaptationField{}
 	for _, o := range ops {
 		before := len(w.accepted)
 		callsBefore := len(w.lens)
@@ -136,7 +137,28 @@ func runMux(period int, ops []muxOp) []muxCall {
 					d2.PES = &pes2
 					d = &d2
 				}
+				// likewise one PacketAdaptationField struct per PID: the content is the history's, except that the two
+				// members WriteData itself uses and resets (StuffingLength, IsOneByteStuffing: S1) are left as the
+				// previous SUCCESSFUL call left them
+				if d != nil && d.AdaptationField != nil && d.AdaptationField.StuffingLength == 0 && !d.AdaptationField.IsOneByteStuffing {
+					pa := reusedAF[d.PID]
+					if pa == nil {
+						pa = &astits.PacketAdaptationField{}
+						reusedAF[d.PID] = pa
+					}
+					sl, ob := pa.StuffingLength, pa.IsOneByteStuffing
+					*pa = *d.AdaptationField
+					pa.StuffingLength, pa.IsOneByteStuffing = sl, ob
+					d2 := *d
+					d2.AdaptationField = pa
+					d = &d2
+				}
 				c.n, err = m.WriteData(d)
+				if err != nil && d != nil && d.AdaptationField != nil && reusedAF[d.PID] == d.AdaptationField {
+					// the documented contract resets StuffingLength after a SUCCESSFUL call only: after a failed one the
+					// caller resets the writer-internal members itself before using the struct again
+					d.AdaptationField.StuffingLength, d.AdaptationField.IsOneByteStuffing = 0, false
+				}
 			case opPacket:
 				c.n, err = m.WritePacket(o.p)
 			}
